@@ -5,20 +5,20 @@ V = os.path.dirname(os.path.dirname(os.path.abspath(__file__)))
 
 CLAIMED = {
  "C03": ("5 C03", 'Seeded search over memory images x 6 output formats: the real naken_asm writes each file onto the simulated disk (stale longer file at the path, seeded clock, source reached through different paths, 64 KiB-page and 256-byte-page builds), an independent decoder written from the published format specification reads it back, and a real naken_util lifetime loads it and prints the image; every run is replayable from its plan. Exploration, not proof: a clean batch is evidence over the sampled images (boundary-biased lengths, gaps, 64 KiB/2^24/2^31/2^32 edges, 1/2/4/8 bytes per address, all S-record sizes).',
-         "Trusts .org/.db of literal bytes to place bytes, the reference decoders in vlib/decoders.py, and the parser of naken_util's print output; zero-filled gap/padding bytes are tolerated for elf/uf2/bin only; no I/O faults are injected (the statement has none)."),
- "C12": ("5 C12", 'Seeded search over workspace histories (edit/corrupt/plant stale/assemble) under injected open, write, vanish and FD faults, with every (corruption kind x placement) cell enumerated by directed runs (35 kinds incl. nesting limits); after each naken_asm lifetime the contract model A1-A6 over exit status, stdout and the simulated file system is evaluated.',
+         "Trusts .org/.db of literal bytes to place bytes, the reference decoders in vlib/decoders.py, and the parser of naken_util's print output; zero-filled gap/padding bytes are tolerated for the formats that serialise the whole span (elf, uf2, bin, Mach-O, Amiga hunk) only; no I/O faults are injected (the statement has none)."),
+ "C12": ("5 C12", 'Seeded search over workspace histories (edit/corrupt/plant stale/assemble) under injected open, write (output and listing), vanish, FD-limit and not-seekable-source faults, with every (corruption kind x placement) cell enumerated by directed runs (46 kinds incl. nesting limits, duplicate definitions, exit() paths) and a sweep of every corpus instruction and table mnemonic with boundary / extreme literals; after each naken_asm lifetime the contract model A1-A6 over exit status, stdout and the simulated file system is evaluated.',
          "Trusts the contract model in engines/c12.py (which corruptions are definitely erroneous), SimFs semantics (truncate on fopen 'wb', sticky ENOSPC), and 'Error' as the diagnostic marker; abnormal termination is left to C16."),
- "C13": ("5 C13", 'Self-differential seeded search: one program, one reference execution and 4-10 executions perturbed only along dimensions the property says must not matter (clock, heap/stack garbage, read chunking, reporting flags, output name/type and their combination, build-time page/pool sizes, in-process history through main() and assemble_code()); byte equality with the reference (decoded images across types) is the only oracle.',
+ "C13": ("5 C13", 'Self-differential seeded search: one program, one reference execution and 4-10 executions perturbed only along dimensions the property says must not matter (clock, heap/stack garbage, read chunking, reporting flags, output name/type and their combination, build-time page/pool sizes, in-process history through main() and assemble_code()); byte equality with the reference (decoded images across types), plus two twin-program comparisons (MSP430 without its CPU directive, .set values written out) and - through hook H2 of /repo - no byte in the written image that only pass 1 produced, checked on the seeded programs and on a seed-independent sweep of every corpus instruction naming a label defined further down.',
          'Uninitialised-memory dependence is visible only if it changes the output; cross-type comparison trusts the C03 decoders; output written behind the simulated file layer (open() instead of fopen()) shows up as a missing file.'),
  "C14": ("5 C14", 'Lockstep refinement of the real SimulateMsp430 against an executable reference model of the MSP430x1xx/2xx CPU (directed stratification over every instruction x mode x size x register-class cell under all 16 flag states, plus seeded multi-step streams), and chunking-invariance of the run loop through the real naken_util main() (-run, -run -break_io, step x n, run + SIGINT + resume, run + SIGINT + step, run + breakpoint + resume, call) under the simulated clock.',
          "Trusts the reference model (written from SLAU049/SLAU144 chapter 3, with documented don't-care bits and excluded cells), the register-dump parser and naken_asm's encoding of the generated routines (the model executes the same bytes)."),
  "C15": ("5 C15", "Seeded single steps of all 15 simulators from user-reachable states (set_reg/push/set_pc/reset and prefix steps only) under ASan/UBSan, with out-of-address-space page detection, repeatability of the step (and of a second step) across fresh objects / heap fills / unrelated and sibling-instruction histories on the same object, and bounded return of a free-running run() after a SIGINT planned at the k-th usleep of the simulated clock.",
-         "Samples the opcode x state space (stratified over the first opcode unit and over the byte after a prefix); state is observed through dump_registers() and a hash of the memory pages; PC-versus-disassembler length agreement is not checked."),
- "C16": ("5 C16", 'Seeded search over naken_asm lifetimes whose input streams end, fail, recurse or vanish at planned points and whose output fills the disk, with buffer-boundary token sizes, deep nesting, extreme addresses, raw bytes, option sets, truncated instructions of every corpus CPU and small symbol/macro pools; monitors are ASan/UBSan (bounds, null, divide-by-zero), exit status, diagnostics and deterministic/CPU-time budgets.',
+         "Samples the opcode x state space (stratified over the first opcode unit and over the byte after a prefix); state is observed through dump_registers() and a hash of the memory pages; PC-versus-disassembler length agreement is checked for the three simulators that use the disassembler's length (6502, 65816, Z80); a quarter of the cases start from real encodings of the instruction corpus."),
+ "C16": ("5 C16", 'Seeded search over naken_asm lifetimes whose input streams end, fail, recurse or vanish at planned points and whose output fills the disk, with buffer-boundary token sizes, deep nesting, extreme addresses, raw bytes, option sets, truncated instructions of every corpus CPU, every corpus instruction and table mnemonic with an extreme literal, every directive between the statements and small symbol/macro pools; monitors are ASan/UBSan (bounds, null, divide-by-zero), exit status, diagnostics and deterministic/CPU-time budgets.',
          'Sanitizer coverage is limited to executed paths; allocation failure is never injected; spans above 2^24 bytes and repeat/reserve/align operands in the millions are not judged for time.'),
- "C17": ("5 C17", 'Seeded search over naken_util lifetimes: object files written by the real assembler, damaged by the simulated disk (torn, flipped, field-mutated), loaded under seeded command lines and driven by scripted console sessions ending with quit or end of input, with planned (re-delivered) SIGINTs and serial-port files; same monitors as C16 plus quit/EOF-is-obeyed, first-SIGINT-stops-the-simulation and a progress classifier that separates loops from long listings.',
-         'A listing whose addresses keep advancing is not judged however long it is; riscv/mips/ebpf run loops are only interrupted while they print.'),
- "C19": ("5 C19", 'Seeded histories of write*/print*/asm/blank-line/set+step commands in a real naken_util lifetime (optional bin/hex/TI-TXT load with -address/-set_pc) checked command by command against a reference byte map (read-your-writes, frame condition via a final sweep, rejection leaves the image unchanged, simulator-fetch agreement for load-immediate and load-from-memory instructions).',
+ "C17": ("5 C17", 'Seeded search over naken_util lifetimes: object files written by the real assembler, damaged by the simulated disk (torn, flipped, field-mutated), loaded under seeded command lines and driven by scripted console sessions ending with quit or end of input, with planned (re-delivered) SIGINTs, serial-port files, options cut short, and byte-soup / opcode-table sweeps through all 68 disassemblers; same monitors as C16 plus quit/EOF-is-obeyed, first-SIGINT-stops-the-simulation and a progress classifier that separates loops from long listings.',
+         'A listing whose addresses keep advancing inside the range it was asked for is not judged however long it is; riscv/mips/ebpf run loops are only interrupted while they print.'),
+ "C19": ("5 C19", 'Seeded histories of write*/print*/asm/blank-line/set+step commands in a real naken_util lifetime (optional bin/hex/TI-TXT load with -address/-set_pc, or an ELF with exported labels in either byte order; ranges and addresses also by symbol name) checked command by command against a reference byte map (read-your-writes, frame condition via a final sweep, rejection leaves the image unchanged, simulator agreement on 12 simulators: load-immediate, load-from-memory, store, return through a written stack, run into a breakpoint).',
          'Trusts the reference byte map and the print parser; range-end inclusiveness and the unit of -address on multi-byte-address CPUs are not assumed.'),
 }
 
